@@ -450,11 +450,14 @@ class simplify_chained_calls(FuncADLNodeTransformer):
         """
         if _is_simple_lambda_call(call_node):
             arg_asts = [self.visit(a) for a in call_node.args]
+            # The arguments may mention a name the lambda re-uses for a parameter, and they are
+            # looked at again when calls are fused: bind them to names nothing else refers to.
+            func = make_args_unique(call_node.func)
             with stack_frame(self._arg_stack):
-                for a_name, arg in zip(call_node.func.args.args, arg_asts):
+                for a_name, arg in zip(func.args.args, arg_asts):
                     self._arg_stack.define_name(a_name.arg, arg)
                 # Now, evaluate the expression, and then lift it.
-                return self.visit(call_node.func.body)
+                return self.visit(func.body)
         elif _is_method_call_on_first(call_node):
             return self.select_method_call_on_first(call_node)
         else:
